@@ -304,10 +304,16 @@ class NodeBase(object):
 
             _new_children.append(_child)
 
+        _old_children = self._children
         self._children = _new_children
 
         for _child in self._children:
             _child.add_parent(self)
+
+        # former children must not keep this node as a parent
+        for _child in set(_old_children):
+            if _child not in self._children:
+                _child.remove_parent(self)
 
         self.mark_for_update()
 
